@@ -173,7 +173,7 @@ fn value_of(rng: &mut Rng, t: &Ty, defs: &[StructDef]) -> (String, Value) {
         Ty::Map(s) => {
             let mut items = vec![];
             let mut kvs = vec![];
-            for k in ["k", "k.j", "with space", " pad", "pad "] {
+            for k in ["k", "k.j", "with space", " pad", "pad ", "443", "-c", "0"] {
                 if rng.chance(2, 3) {
                     let (src, v) = scalar_value(rng, s);
                     items.push(format!("({:?}.to_string(), {src})", k));
@@ -224,12 +224,16 @@ fn random_attrs(rng: &mut Rng, sid: usize, fidx: usize) -> Vec<Attr> {
             }
             0 => Attr { getter: true, metas: vec![json!("skip")], text: "#[getter(skip)]".into() },
             1 => {
-                let n = *rng.pick(&["alias", "g", "f0", "f1", "other name"]);
+                let n = *rng.pick(&["alias", "g", "f0", "f1", "other name", "2xx", "-x", "0"]);
                 Attr { getter: true, metas: vec![json!({ "rename": n })], text: format!("#[getter(rename = {:?})]", n) }
             }
             2 | 3 => {
                 // serde renames must be unique within a struct
-                let n = format!("sr{sid}_{fidx}_{k}");
+                let n = match rng.below(4) {
+                    0 => format!("sr.{sid}.{fidx}.{k}"),
+                    1 => format!("sr {sid} {fidx} {k}"),
+                    _ => format!("sr{sid}_{fidx}_{k}"),
+                };
                 Attr { getter: false, metas: vec![json!({ "rename": n })], text: format!("#[serde(rename = {:?})]", n) }
             }
             4 => {
